@@ -202,8 +202,8 @@ func genCase(r *vf.Run, i int) (*caseSpec, []gen.Entry) {
 		ents = appendDupTail(rng.Derive(4), ents)
 		c.DupTail = true
 	}
-	if rng.Chance(1, 10) {
-		c.Inject = rng.PickS("toc", "landmark")
+	if rng.Chance(1, 4) {
+		c.Inject = rng.PickS("toc", "toc", "landmark")
 	}
 	if c.Mode == "build" && rng.Chance(1, 2) {
 		// prioritized list: existing paths in random spellings (+ a missing one);
@@ -519,6 +519,20 @@ func runCase(r *vf.Run, idx int) {
 			return
 		}
 		input = pre.Blob
+		// the first build is a Build like any other: its output must already unpack like its input
+		// (judged here so that a defect of the first stage is not attributed to the second one)
+		if praw, err := specread.DecompressAll(pre.Blob, c.PreOpts.Scheme == "zstdchunked"); err == nil {
+			if pents, _, err := specread.ReadTar(praw); err == nil {
+				var pv verdicts
+				checkUnpack(&pv, in, pents)
+				if len(pv.fs) > 0 {
+					for _, f := range pv.fs {
+						r.Violate(f.Clause+":build:"+c.PreOpts.Scheme+":pre-build", f.What+"  ["+c.String()+"]", replay)
+					}
+					return
+				}
+			}
+		}
 		// the model of what that blob's tar contains: deduplicated entries, no input
 		// landmarks, one landmark of the first build (and for gzip a TOC entry, which every
 		// non-lossless mode documents as dropped)
